@@ -70,6 +70,9 @@ pub fn apply_tla<H: BuildHasher>(args: &HashMap<IStr, TlaArg, H>, val: Val) -> R
 			|| {
 				let mut names = Vec::with_capacity(args.len());
 				let mut values = Vec::with_capacity(args.len());
+				// Map iteration order is arbitrary; evaluate (and report errors) in name order.
+				let mut args: Vec<_> = args.iter().collect();
+				args.sort_by(|a, b| a.0.cmp(b.0));
 				for (name, value) in args {
 					names.push(name.clone());
 					values.push(value.evaluate()?);
